@@ -1,5 +1,6 @@
 """Adapter: spec/Coroutines.tla <-> desper.CoroutineProcessor / CoroutinePromise (real classes)."""
 import gc
+from fractions import Fraction
 
 from ..replay import guarded, SKIP
 from ..tla import fmap
@@ -37,6 +38,8 @@ class CoroutinesAdapter:
         env.prom = {}
         self.counter = getattr(self, 'counter', 0) + 1
         env.base_exc = self.counter % 2 == 0
+        # a wait is a number: in every third behaviour an exact rational (all model times are dyadic, Fraction is exact)
+        env.num = (lambda x: Fraction(x)) if self.counter % 3 == 1 else (lambda x: x)
         G = self.G
 
         def make(g, script):
@@ -50,9 +53,9 @@ class CoroutinesAdapter:
                     if op == 'y':
                         env.log.append((g, i, '-'))
                         if n > 0:
-                            yield n * self.Q
+                            yield env.num(n * self.Q)
                         elif n < 0:
-                            yield n * self.Q
+                            yield env.num(n * self.Q)
                         else:
                             yield (None if i % 2 else 0)
                     else:
